@@ -26,7 +26,7 @@ func init() {
 		Rules: []core.Rule{
 			{ID: "C11-R1", Title: "write gate dominates store and callbacks; remote path passes checkPerms=true", Decides: "a remote write without write permission changes nothing and invokes no callback", Floor: 4, Run: c11r1},
 			{ID: "C11-R2", Title: "read gate dominates the store; Value has a single writer", Decides: "a characteristic without read permission never stores a value", Floor: 2, Run: c11r2},
-			{ID: "C11-R3", Title: "event gate dominates every Subscribe", Decides: "subscription without event permission is rejected with a status", Floor: 2, Run: c11r3},
+			{ID: "C11-R3", Title: "event gate dominates every Subscribe", Decides: "subscription without event permission is rejected with a status", Floor: 2, Run: func(c *core.Ctx) { c11r3(c); hapConstantsTable(c) }},
 			{ID: "C11-R4", Title: "the HTTP layer is confined to the permission-checking API", Decides: "both update paths go through the gates", Floor: 1, Run: c11r4},
 			{ID: "C11-R5", Title: "predicate <-> permission constant table", Decides: "the gates test the right permission", Floor: 6, Run: func(c *core.Ctx) { c11r5(c); returnsUndecorated(c, "C11") }},
 			{ID: "C11-R6", Title: "reads return only the stored value; subscriptions are per characteristic object (shared with C10-R4)", Decides: "no value revealed without read permission; no events without event permission", Floor: 5, Run: c11r6},
@@ -46,10 +46,10 @@ func updateValueEffects(f *ssa.Function) (store *ssa.Store, fanouts []ssa.Instru
 			return
 		}
 		for _, a := range cc.Args {
-			if _, ok := core.FieldLoad(a, tChar, "connValueUpdateFuncs"); ok {
+			if isCallbackSlice(a, "connValueUpdateFuncs") {
 				fanouts = append(fanouts, i)
 			}
-			if _, ok := core.FieldLoad(a, tChar, "valueChangeFuncs"); ok {
+			if isCallbackSlice(a, "valueChangeFuncs") {
 				fanouts = append(fanouts, i)
 			}
 		}
@@ -58,6 +58,14 @@ func updateValueEffects(f *ssa.Function) (store *ssa.Store, fanouts []ssa.Instru
 		}
 	})
 	return
+}
+
+// isCallbackSlice: v is the named callback list of a characteristic — the field, a local holding it, a full slice of it.
+func isCallbackSlice(v ssa.Value, field string) bool {
+	if _, ok := core.FieldLoad(v, tChar, field); ok {
+		return true
+	}
+	return core.AnySource(v, func(s ssa.Value) bool { _, ok := core.FieldLoad(s, tChar, field); return ok })
 }
 
 // dispatchesCallbacksOf: the call hands the characteristic ch to a module function that runs the callbacks registered on that
@@ -394,12 +402,30 @@ func c11r5(c *core.Ctx) {
 		}
 		// the scanned list is the receiver's Perms field and nothing else (a substituted default list grants permissions the
 		// published characteristic does not carry)
-		scan(f, func(v ssa.Value) bool {
+		var isRecvPerms func(v ssa.Value, depth int) bool
+		isRecvPerms = func(v ssa.Value, depth int) bool {
+			if depth > 4 {
+				return false
+			}
+			// a copy of the list ( append([]string(nil), c.Perms...) ) is the list
+			if call, ok := v.(*ssa.Call); ok {
+				if b, isB := call.Call.Value.(*ssa.Builtin); isB && b.Name() == "append" && len(call.Call.Args) == 2 && emptySlice(call.Call.Args[0]) {
+					return isRecvPerms(call.Call.Args[1], depth+1)
+				}
+			}
 			return core.AllSources(v, func(s ssa.Value) bool {
+				if s != v {
+					if call, ok := s.(*ssa.Call); ok {
+						if b, isB := call.Call.Value.(*ssa.Builtin); isB && b.Name() == "append" {
+							return isRecvPerms(s, depth+1)
+						}
+					}
+				}
 				b, ok := core.FieldLoad(s, tChar, "Perms")
 				return ok && b == ssa.Value(f.Params[0])
 			})
-		}, 2)
+		}
+		scan(f, func(v ssa.Value) bool { return isRecvPerms(v, 0) }, 2)
 		// the predicate returns true only from that comparison's true branch: the helper returns constant true there
 		c.Check(ok, "predicate:"+pred, f.Pos(), pred+" scans c.Perms for \""+perm+"\"", pred+" does not test the receiver's Perms for \""+perm+"\"")
 	}
